@@ -8,6 +8,8 @@ replay: for a (seeded sample quick / large sample thorough) of the emitted order
         (Fractions) and compared: same variable set, identical series for every variable (observed vs observed).
 trace:  ModelBuild_Trace judges the Compare event (property clause) and the ledger conformance of the
         permuted build (drift).
+thorough tier only: harness/stepscheck.py - the GUI step API as an alternative schedule of the same pipeline
+        (spec/Steps.tla, all orders of the per-sector commands), clause C08_StepOrderIndependent.
 """
 import json
 
@@ -79,6 +81,14 @@ def run(rep):
         if isinstance(r[0], str):
             raise core.MachineryError(r[0])
     judge(rep, chosen, results)
+    if rep.tier == 'thorough':
+        # extension: the GUI step API (_GetSteps / _RunStep) as an alternative schedule of main() - spec/Steps.tla
+        from harness import stepscheck
+        try:
+            stepscheck.run_steps(rep)
+        except stepscheck.StepApiMissing as e:
+            # the API is experimental: its absence says nothing about C08
+            rep.add_drift('drift_step_api_missing', {'kind': 'steps', 'error': str(e)})
 
 
 def judge(rep, chosen, results):
@@ -104,6 +114,9 @@ def replay(path):
     with open(path) as f:
         data = json.load(f)
     case = data['case']
+    if case.get('kind') == 'steps':
+        from harness import stepscheck
+        return stepscheck.replay_case(data)
     rep = core.Report(PROP, 'quick', case.get('seed', 0))
     bps, behs = modelcheck.generate(rep, 'MC_ModelBuild_thorough.cfg' if data.get('tier') == 'thorough' else 'MC_ModelBuild_quick.cfg')
     beh = {'name': case['name'], 'decl': case['decl']}
